@@ -51,10 +51,12 @@ NRowsClass(s, e) == IF IsNumber(s) /\ IsNumber(e) /\ Rank(e) > Rank(s) THEN "som
 \*   symlink-loop           a link that points to itself
 \*   dangling-into-missing-dir  a link whose target lies in a directory that does not exist
 \*   absent-no-extension    a new name without a suffix, next to existing files called <name>.json / <name>.txt
+\*   existing-empty         an existing file of zero bytes (a placeholder somebody made): it exists
 FileClasses == {"none", "absent", "existing", "dir", "symlink-to-file", "dangling-symlink", "parent-missing", "empty-string",
                 "symlink-rel-in-subdir", "symlink-up", "symlink-abs-to-file", "symlink-to-dir", "existing-dotdot", "absent-in-subdir",
-                "absent-trailing-slash", "symlink-loop", "dangling-into-missing-dir", "absent-no-extension"}
-ExistingClasses == {"existing", "dir", "symlink-to-file", "symlink-rel-in-subdir", "symlink-up", "symlink-abs-to-file",
+                "absent-trailing-slash", "symlink-loop", "dangling-into-missing-dir", "absent-no-extension",
+                "existing-empty"}
+ExistingClasses == {"existing", "existing-empty", "dir", "symlink-to-file", "symlink-rel-in-subdir", "symlink-up", "symlink-abs-to-file",
                     "symlink-to-dir", "existing-dotdot"}
 CreatableClasses == {"absent", "dangling-symlink", "absent-in-subdir", "absent-no-extension"}
 FileVerdict(f) == CASE f \in {"none", "absent", "absent-in-subdir", "absent-no-extension"} -> "accept"
